@@ -2,7 +2,7 @@
 Implementation model: SAN parsing, resolution against a board, and formatting; `Make` impls.
 rust: chess/src/moves/san.rs (Data, Move, AmbigDetector, AmbigSearcher, FromStr, into_move, from_move, do_fmt),
       chess/src/moves/make.rs (Make for Move, uci::Move, san::Move, Uci<S>, San<S>, TryUnchecked)
-`san::Data::from_str` follows the repaired code (ASCII gate, `saturating_sub`), DESIGN §7 D3.
+`san::Data::from_str` follows the repaired code (`saturating_sub`, `from_utf8` failure → `Syntax`), DESIGN §7 D3.
 -/
 import OwlModel.Impl.Text
 
@@ -55,7 +55,6 @@ def parseSanData (data : Bytes) : Res SanRawErr SanData :=
   if data = [79, 45, 79] || data = [48, 45, 48] then .ok (.castling .king)
   else if data = [79, 45, 79, 45, 79] || data = [48, 45, 48, 45, 48] then .ok (.castling .queen)
   else if data.isEmpty then .err .emptyString
-  else if !isAscii data then .err .syntax
   else
     match parseUci data with
     | .trap w => .trap w
@@ -69,6 +68,8 @@ def parseSanData (data : Bytes) : Res SanRawErr SanData :=
           let bytes := rest
           let k := bytes.length - 2   -- saturating_sub
           let dstBytes := bytes.drop k
+          -- `from_utf8(dst_bytes)` fails iff the cut falls inside a character → `Syntax`
+          if !isCharBoundary data (k + 1) then .err .syntax else
           let bytes := bytes.take k
           match parseCoord dstBytes with
           | .error e => .err (.invalidDst e)
@@ -103,6 +104,7 @@ def parseSanData (data : Bytes) : Res SanRawErr SanData :=
           else
             let k := bytes.length - 2
             let dstBytes := bytes.drop k
+            if !isCharBoundary data k then .err .syntax else
             let bytes := bytes.take k
             match parseCoord dstBytes with
             | .error e => .err (.invalidDst e)
